@@ -337,6 +337,11 @@ def r19_5(chk):
     idname = norm(t.ast.test.left)
     inserts = [n for n in g.nodes if n.kind == "stmt" and isinstance(n.ast, ast.Assign) and isinstance(n.ast.targets[0], ast.Subscript) and norm(n.ast.targets[0].slice) == idname]
     if not inserts:
+        # the work list is keyed by something else than what the store is asked about
+        other = [n for n in g.nodes if n.kind == "stmt" and isinstance(n.ast, ast.Assign) and isinstance(n.ast.targets[0], ast.Subscript) and norm(n.ast.targets[0].value) == "inputs"]
+        if other:
+            chk.violation("R19.5", key(m, "_apply_to", "resume skip"), m.loc(t.ast), f"the store is asked about `{idname}` but the input is filed (and its result later written) under `{norm(other[0].ast.targets[0].slice)}`: whenever the two differ (a custom id_from_source) nothing already written is recognised on a re-run -- every input is processed again, or the first overwrite raises in append mode")
+            return
         raise AnalysisError("_apply_to: insertion into the work list keyed by the identifier not found")
     ins = inserts[0]
     skips = T._always_exits(t.ast.body) and isinstance(t.ast.body[-1], ast.Continue)
